@@ -116,6 +116,12 @@ def tree_ref(case, e, x, off, N):
             y[o:o + m], d[o:o + m] = f_val_der(e["f"].get(kk, {"f": "id"}), x[o:o + m])
         v, F = tree_ref(case, e["e"], y, off, N)
         return v, np.diag(d) @ F @ np.diag(d)
+    if k == "vmodel":
+        A, B = np.array(e["A"], float), np.array(e["B"], float)
+        bb = np.exp(B @ x)
+        v, F = leaf_ref(e["e"], np.concatenate([A @ x, bb]), n)
+        J = np.vstack([A, np.diag(bb) @ B])
+        return v, J.T @ F @ J
     leaf = e["e"] if k in ("chain", "lin") else e
     keys = G.leaf_keys(leaf)
     idx = []
